@@ -13,9 +13,9 @@ Proof.
   destruct r; destruct (takes_binder _); reflexivity.
 Qed.
 
-Lemma pred_bounds_no_binder w : wp_binder w = [] -> pred_bounds w = trait_bounds (wp_bounds w).
+Lemma pred_bounds_no_binder lts w : wp_binder w = [] -> pred_bounds lts w = trait_bounds lts (wp_bounds w).
 Proof.
-  intros E. unfold pred_bounds. rewrite E. induction (trait_bounds (wp_bounds w)) as [|b l IH]; [reflexivity|].
+  intros E. unfold pred_bounds. rewrite E. induction (trait_bounds lts (wp_bounds w)) as [|b l IH]; [reflexivity|].
   cbn [map]. rewrite with_binder_nil, IH. reflexivity.
 Qed.
 
@@ -44,7 +44,7 @@ Qed.
 Theorem hrtb_binder_kept tg g name d tg' w b :
   find_deps_generic_bounds tg g name = Some (d, tg') -> nodup_str (tparam_names g) = true ->
   In w (where_items g) -> wp_is_type w = true -> wp_bounded w = BPath false false 1 name ->
-  In b (trait_bounds (wp_bounds w)) -> takes_binder b = true ->
+  In b (trait_bounds (life_names g) (wp_bounds w)) -> takes_binder b = true ->
   In (wp_binder w ++ b) (deps_bounds_of d).
 Proof.
   intros H Hn Hw Ht Hb Hin Htb. rewrite (find_deps_bounds _ _ _ _ _ H Hn). cbn [deps_bounds_of].
@@ -57,5 +57,28 @@ Qed.
     bounds of the predicates on it, each with that predicate's binder *)
 Theorem deps_bounds_exact tg g name d tg' :
   find_deps_generic_bounds tg g name = Some (d, tg') -> nodup_str (tparam_names g) = true ->
-  deps_bounds_of d = flat_map (pcontrib name) (p_items (g_params g)) ++ flat_map (contrib name) (where_items g).
+  deps_bounds_of d = flat_map (pcontrib (life_names g) name) (p_items (g_params g)) ++ flat_map (contrib (life_names g) name) (where_items g).
 Proof. intros H Hn. rewrite (find_deps_bounds _ _ _ _ _ H Hn). reflexivity. Qed.
+
+(** ** which bounds of the dependency are carried to [Self: ..] (F16, F25) *)
+Theorem trait_bounds_spec lts l b :
+  In b (trait_bounds lts l) <-> In b l /\ is_relaxed b = false /\ is_fn_lifetime lts b = false.
+Proof.
+  unfold trait_bounds. rewrite filter_In. split.
+  - intros [Hin H]. apply andb_true_iff in H as [H1 H2]. apply negb_true_iff in H1, H2. auto.
+  - intros (Hin & H1 & H2). split; [exact Hin|]. rewrite H1, H2. reflexivity.
+Qed.
+
+(** the order of the carried bounds is the source order *)
+Lemma trait_bounds_app lts l1 l2 : trait_bounds lts (l1 ++ l2) = trait_bounds lts l1 ++ trait_bounds lts l2.
+Proof. unfold trait_bounds. apply filter_app. Qed.
+
+(** a bound that is a lifetime parameter of the function is the two tokens ['a]; ['static] and other lifetimes stay *)
+Lemma is_fn_lifetime_spec lts b : is_fn_lifetime lts b = true <-> exists n, b = [pc "'"; TId n] /\ In n lts.
+Proof.
+  split.
+  - unfold is_fn_lifetime. destruct b as [|q [|u [|v r]]]; try discriminate; destruct u as [n| | |]; try discriminate.
+    intros H. apply andb_true_iff in H as [H1 H2]. unfold is_p in H1. apply tt_eqb_eq in H1. subst q.
+    exists n. split; [reflexivity | apply str_mem_In; exact H2].
+  - intros (n & -> & Hin). unfold is_fn_lifetime, is_p. rewrite tt_eqb_refl. apply str_mem_In. exact Hin.
+Qed.
